@@ -41,7 +41,10 @@ def namedTy (w : String) : Option Ty :=
 def opsTl : List (String × Handler) := [
   ("prim.crc32", fun
     | [h] => match hexArg h with
-      | some bs => toString (Crc.crc32 bs).toNat
+      | some bs =>
+        -- the three definitions of the model (UInt32 bitwise, Nat bitwise, Nat table-driven) must agree with Go
+        let a := Crc.crc32N (bs.map (·.toNat))
+        if a == Crc.crc32T (bs.map (·.toNat)) && a == (Crc.crc32 bs).toNat then toString a else "crc-variants-disagree"
       | none => "bad-op"
     | _ => "bad-op"),
   -- the whole schema file: parse, well-formedness, canonical text
